@@ -1528,6 +1528,8 @@ val missed_path_errors : dir list -> cerr option
 val build_catalog :
   (coords -> bytes) -> n list -> nat -> dir list -> catalog cres
 
+val placed : nat -> n option -> dir -> bool
+
 type otable = (((bytes * okind) * z) * olen_res) list
 
 type etable = (((bytes * z) * z) * (n * z)) list
@@ -1578,6 +1580,8 @@ val tree_case_b :
   n list -> fsmap -> bytes -> otable -> etable -> nat -> tree_result
 
 val tree_case : fsmap -> bytes -> otable -> etable -> nat -> tree_result
+
+val placed_case : fsmap -> bytes -> otable -> etable -> nat -> bool option
 
 type skind =
 | KJsight
